@@ -27,6 +27,10 @@ func init() {
 		Run:      runC18,
 		Thorough: thoroughC18,
 		Mutants: []Mutant{
+			{Name: "echo-mode-of-the-last-profile-visited", File: "internal/config/validation.go",
+				Old: "func validateConfig(cfg *Config) error {\n", New: "func validateConfig(cfg *Config) error {\n\techo := false\n\tfor _, profile := range cfg.BFDProfiles {\n\t\techo = profile.EchoMode\n\t}\n\tif !echo {\n\t\treturn nil\n\t}\n", Expect: "MAP-LAST"},
+			{Name: "pinned-names-sorted-through-an-appended-alias", File: "internal/allocator/allocator.go",
+				Old: "\tfor _, svcPoolName := range a.pools.ByServiceSelector {\n", New: "\tselNames := append(a.pools.ByServiceSelector, a.pools.ByNamespace[svc.Namespace]...)\n\tsort.Strings(selNames)\n\tfor _, svcPoolName := range a.pools.ByServiceSelector {\n", Expect: "sort-alias"},
 			{Name: "pool-config-forgotten-on-rejected-snapshot", File: "internal/k8s/controllers/pool_controller.go",
 				Old: "\tif err != nil {\n\t\tconfigStale.Set(1)\n", New: "\tif err != nil {\n\t\tconfigStale.Set(1)\n\t\tr.currentConfig = nil\n", Expect: "remembered-changes-only-with-the-handler"},
 			{Name: "hold-time-truncated-in-place", File: "internal/bgp/native/native.go",
@@ -83,6 +87,7 @@ func runC18(p *chk.Prog, r *chk.Report) {
 	c18Compare(p, r)
 	c18Normalise(p, r)
 	c18MapExit(p, r)
+	c18MapLast(p, r)
 	c18MapCarry(p, r)
 	// what the reconcilers remember stays equal to what a new parse yields: nothing outside internal/config stores into it
 	sharedConfigRule(p, r)
@@ -711,4 +716,108 @@ func resetInIteration(f *chk.Fn, g *chk.Graph, rs *ast.RangeStmt, test ast.Node,
 	start := bodyStart(g, rs)
 	w := g.MustPass(chk.Site{G: g, B: start.B, I: -1}, func(n ast.Node) bool { return n == test }, false, isReset)
 	return !w.Found
+}
+
+// c18MapLast: a range over a map leaves nothing behind that depends on which element came last (or first). A local
+// declared outside such a loop, assigned inside it a value computed from the element at hand, and read after the loop,
+// holds whatever the last visited element gave it: two parses of the same resources then differ. Constants (found
+// flags), monotone updates (x = x || e, x = x && e), and variables that are assigned afresh before every later read are
+// not order-dependent.
+func c18MapLast(p *chk.Prog, r *chk.Report) {
+	x := r.Rule("MAP-LAST", "A map order (last writer)", "in the call-graph closure of toConfig / config.For / the mode validators no range over a map assigns to a local declared outside it a value computed from the element at hand (other than a constant or a monotone x = x || e / x = x && e update) that is read after the loop", 0)
+	roots := c18Roots(p)
+	if len(roots) < 5 {
+		return
+	}
+	a := p.AnalyseMapOrder(roots...)
+	n := 0
+	for _, f := range a.Funcs {
+		if f.Body == nil {
+			continue
+		}
+		g := f.Graph()
+		for _, rs := range f.RangeLoops(func(e ast.Expr) bool {
+			tv, ok := f.Info().Types[e]
+			if !ok || tv.Type == nil {
+				return false
+			}
+			_, isMap := tv.Type.Underlying().(*types.Map)
+			return isMap
+		}) {
+			n++
+			elem := map[types.Object]bool{}
+			for _, e := range []ast.Expr{rs.Key, rs.Value} {
+				if id, isId := e.(*ast.Ident); isId && id.Name != "_" {
+					if o := f.ObjOf(id); o != nil {
+						elem[o] = true
+					}
+				}
+			}
+			chk.InspectNoLit(rs.Body, func(nd ast.Node) bool {
+				as, ok := nd.(*ast.AssignStmt)
+				if !ok || as.Tok != token.ASSIGN || len(as.Lhs) != len(as.Rhs) {
+					return true
+				}
+				for i, l := range as.Lhs {
+					id, isId := l.(*ast.Ident)
+					if !isId {
+						continue
+					}
+					v, isVar := f.ObjOf(id).(*types.Var)
+					if !isVar || v.IsField() || (v.Pos() >= rs.Pos() && v.Pos() <= rs.End()) || v.Pkg() == nil || v.Parent() == v.Pkg().Scope() {
+						continue
+					}
+					switch v.Type().Underlying().(type) {
+					case *types.Basic, *types.Pointer, *types.Struct:
+					default:
+						continue // lists, maps and errors have their own rules (MAPORDER, MAP-EXIT)
+					}
+					rhs := as.Rhs[i]
+					if f.ConstVal(rhs) != nil || f.IsNilLit(rhs) || monotone(f, v, rhs) != token.ILLEGAL {
+						continue
+					}
+					// computed from the element at hand?
+					dep := false
+					ast.Inspect(rhs, func(m ast.Node) bool {
+						if rid, isR := m.(*ast.Ident); isR && elem[f.ObjOf(rid)] {
+							dep = true
+						}
+						return true
+					})
+					if !dep {
+						continue
+					}
+					// read after the loop with this assignment still in force?
+					var readAt ast.Node
+					ast.Inspect(f.Body, func(m ast.Node) bool {
+						uid, isU := m.(*ast.Ident)
+						if !isU || readAt != nil || f.ObjOf(uid) != types.Object(v) || uid.Pos() <= rs.End() || f.Info().Defs[uid] != nil {
+							return true
+						}
+						if par, isAs := f.Prog.Parent(uid).(*ast.AssignStmt); isAs {
+							for _, ll := range par.Lhs {
+								if ll == ast.Expr(uid) {
+									return true // a store, not a read
+								}
+							}
+						}
+						st := g.FactSite(uid)
+						if st.B == nil {
+							return true
+						}
+						if def, _ := g.DefOf(uid, st); def != nil && (def.Pos() < rs.Pos() || def.Pos() > rs.End()) {
+							return true // assigned afresh before this read
+						}
+						readAt = uid
+						return true
+					})
+					x.Check(f.Name()+":"+v.Name()+"@"+f.Src(rs.X), as.Pos(), readAt == nil, "", "the value of `"+v.Name()+"` after the loop over "+f.Src(rs.X)+" (a Go map) is the one computed from whichever element was visited last: the outcome (a configuration accepted or refused, a field rendered) changes from one parse of the same resources to the next")
+				}
+				return true
+			})
+		}
+	}
+	if n == 0 {
+		x.OK("no-map-loops", 0, "")
+	}
 }
